@@ -993,3 +993,188 @@ fn ob_rv_mpsc_store_cancel_terminal_s0r1_0() { mpsc_store::step_cancel_terminal(
 #[kani::stub(parking_lot::RawMutex::unlock_slow, crate::verif_k_stubs::stub_unlock_slow)]
 #[kani::unwind(5)]
 fn ob_rv_mpsc_store_cancel_terminal_s0r1_1() { mpsc_store::step_cancel_terminal(0, 1, true); }
+
+// ---- cancel vs. handoff at lock granularity (C01.rv.lockinv) ---------------------------
+// The module's own rule: "state transitions only ever happen while the mutex is held" and
+// "cancellation also takes the lock, so it either finds its still-WAITING record and removes it,
+// or observes that the peer already completed the handoff under the lock".
+// Contract of cancel_receiver / cancel_sender under interference: for every complete operation of
+// another handle that runs before the cancel's lock acquisition,
+//    returns true  => no value was moved into / out of the waiter's slot (the peer's operation did not
+//                     report success for this waiter), and the record is unlinked;
+//    returns false => the waiter's terminal outcome stands.
+pub(crate) static mut IL_SH: *const MpmcRvShared<u8> = std::ptr::null();
+pub(crate) static mut IL_SENT_OK: bool = false;
+pub(crate) static mut IL_RECV_GOT: Option<u8> = None;
+pub(crate) static mut IL_OP: u8 = 0;
+
+pub(crate) static mut IL_ARMED: bool = false;
+pub(crate) static mut IL_LOCKS: u8 = 0;
+
+fn il_hook() {
+  unsafe {
+    let sh = &*IL_SH;
+    match IL_OP {
+      0 => { IL_SENT_OK = sh.try_send(42).is_ok(); }
+      1 => { IL_RECV_GOT = sh.try_recv().ok(); }
+      2 => { sh.drop_sender(); }
+      3 => { sh.drop_receiver(); }
+      _ => {}
+    }
+  }
+}
+
+/// Replacement for `core::sync::atomic::atomic_compare_exchange` (what `AtomicU8::compare_exchange`,
+/// the waiter-state CAS in cancel_*, expands to): performs the CAS (single thread: read + write) and
+/// then, if armed, runs ONE complete operation of another handle.  That is exactly the window between
+/// cancel_*'s state CAS and its lock acquisition: "another thread got the core lock first".
+/// parking_lot's mutex word uses compare_exchange_weak (a different function) and is not affected.
+pub(crate) unsafe fn stub_cas<T: Copy>(dst: *mut T, old: T, new: T, _s: Ordering, _f: Ordering) -> Result<T, T> {
+  unsafe {
+    let cur: T = *dst;
+    let n = std::mem::size_of::<T>();
+    let (pc, po) = (&cur as *const T as *const u8, &old as *const T as *const u8);
+    let mut eq = true;
+    let mut i = 0;
+    while i < n { if *pc.add(i) != *po.add(i) { eq = false; } i += 1; }
+    if eq { *dst = new; }
+    IL_LOCKS += 1;
+    // another thread can run its critical section here only if the core lock is free
+    if IL_ARMED && !(*IL_SH).core.is_locked() {
+      IL_ARMED = false;
+      il_hook();
+    }
+    if eq { Ok(cur) } else { Err(cur) }
+  }
+}
+
+fn step_cancel_interleaved(recv_side: bool, op: u8) {
+  let sh = MpmcRvShared::<u8>::new();
+  let mut m = Mem::new();
+  let s = if recv_side { any_state(&sh, &mut m, 0, 1) } else { any_state(&sh, &mut m, 1, 0) };
+  kani::assume(s.sc >= 1 && s.rc >= 1);
+  unsafe {
+    IL_SH = &sh as *const _;
+    IL_OP = op;
+    IL_ARMED = true;
+  }
+  if recv_side {
+    let r = sh.cancel_receiver(&m.r_state[0] as *const AtomicU8, &m.r_state[0]);
+    let sent_ok = unsafe { IL_SENT_OK };
+    if r {
+      // the receiver reports Timeout / its future is dropped: nothing may have been delivered to it
+      assert!(!sent_ok, "sender was told Ok but the receiver cancelled: value lost");
+      assert!(m.r_dest[0].is_none(), "value sits in the destination of a cancelled receive");
+      assert!(sh.k_nr() == 0);
+    } else {
+      // a sender committed first: delivery stands and the value is there
+      assert!(st(&m.r_state[0]) == DONE || st(&m.r_state[0]) == DISCONNECTED);
+      if sent_ok { assert!(m.r_dest[0] == Some(42) && st(&m.r_state[0]) == DONE); }
+    }
+    if sent_ok { assert!(m.r_dest[0] == Some(42)); }
+  } else {
+    let r = sh.cancel_sender(&m.s_state[0] as *const AtomicU8, &m.s_state[0]);
+    let got = unsafe { IL_RECV_GOT };
+    if r {
+      // the sender keeps its payload (it will hand it back / drop it): nobody may have received it
+      assert!(got.is_none(), "cancelled send was delivered as well (duplicate)");
+      assert!(m.s_slot[0] == Some(s.items[0]), "payload of a cancelled send is gone");
+      assert!(sh.k_ns() == 0);
+    } else {
+      assert!(st(&m.s_state[0]) == DONE || st(&m.s_state[0]) == DISCONNECTED);
+      if let Some(g) = got { assert!(g == s.items[0] && m.s_slot[0].is_none()); }
+    }
+  }
+  assert!(unsafe { IL_LOCKS } >= 1);
+  kani::cover!(true, "END");
+}
+
+// @obligation id=rv.lockinv.cancel_receiver.try_send props=C01,C06 kind=step tier=quick bound="1 parked receiver; one complete try_send of another handle runs between cancel_receiver's state CAS and its lock acquisition; counts any 1..=2"
+#[kani::proof]
+#[kani::stub(std::thread::current::current, crate::verif_k_stubs::stub_thread_current)]
+#[kani::stub(parking_lot::RawMutex::lock_slow, crate::verif_k_stubs::stub_lock_slow)]
+#[kani::stub(parking_lot::RawMutex::unlock_slow, crate::verif_k_stubs::stub_unlock_slow)]
+#[kani::stub(std::sync::atomic::atomic_compare_exchange, stub_cas)]
+#[kani::unwind(9)]
+fn ob_rv_lockinv_cancel_receiver_try_send() { step_cancel_interleaved(true, 0); }
+
+// @obligation id=rv.lockinv.cancel_receiver.try_recv props=C01,C06 kind=step tier=quick bound="1 parked receiver; one complete try_recv of another handle runs between cancel_receiver's state CAS and its lock acquisition; counts any 1..=2"
+#[kani::proof]
+#[kani::stub(std::thread::current::current, crate::verif_k_stubs::stub_thread_current)]
+#[kani::stub(parking_lot::RawMutex::lock_slow, crate::verif_k_stubs::stub_lock_slow)]
+#[kani::stub(parking_lot::RawMutex::unlock_slow, crate::verif_k_stubs::stub_unlock_slow)]
+#[kani::stub(std::sync::atomic::atomic_compare_exchange, stub_cas)]
+#[kani::unwind(9)]
+fn ob_rv_lockinv_cancel_receiver_try_recv() { step_cancel_interleaved(true, 1); }
+
+// @obligation id=rv.lockinv.cancel_receiver.drop_sender props=C01,C06 kind=step tier=thorough bound="1 parked receiver; one complete drop_sender of another handle runs between cancel_receiver's state CAS and its lock acquisition; counts any 1..=2"
+#[kani::proof]
+#[kani::stub(std::thread::current::current, crate::verif_k_stubs::stub_thread_current)]
+#[kani::stub(parking_lot::RawMutex::lock_slow, crate::verif_k_stubs::stub_lock_slow)]
+#[kani::stub(parking_lot::RawMutex::unlock_slow, crate::verif_k_stubs::stub_unlock_slow)]
+#[kani::stub(std::sync::atomic::atomic_compare_exchange, stub_cas)]
+#[kani::unwind(9)]
+fn ob_rv_lockinv_cancel_receiver_drop_sender() { step_cancel_interleaved(true, 2); }
+
+// @obligation id=rv.lockinv.cancel_receiver.drop_receiver props=C01,C06 kind=step tier=quick bound="1 parked receiver; one complete drop_receiver of another handle runs between cancel_receiver's state CAS and its lock acquisition; counts any 1..=2"
+#[kani::proof]
+#[kani::stub(std::thread::current::current, crate::verif_k_stubs::stub_thread_current)]
+#[kani::stub(parking_lot::RawMutex::lock_slow, crate::verif_k_stubs::stub_lock_slow)]
+#[kani::stub(parking_lot::RawMutex::unlock_slow, crate::verif_k_stubs::stub_unlock_slow)]
+#[kani::stub(std::sync::atomic::atomic_compare_exchange, stub_cas)]
+#[kani::unwind(9)]
+fn ob_rv_lockinv_cancel_receiver_drop_receiver() { step_cancel_interleaved(true, 3); }
+
+// @obligation id=rv.lockinv.cancel_receiver.nothing props=C01,C06 kind=step tier=quick bound="1 parked receiver; one complete nothing of another handle runs between cancel_receiver's state CAS and its lock acquisition; counts any 1..=2"
+#[kani::proof]
+#[kani::stub(std::thread::current::current, crate::verif_k_stubs::stub_thread_current)]
+#[kani::stub(parking_lot::RawMutex::lock_slow, crate::verif_k_stubs::stub_lock_slow)]
+#[kani::stub(parking_lot::RawMutex::unlock_slow, crate::verif_k_stubs::stub_unlock_slow)]
+#[kani::stub(std::sync::atomic::atomic_compare_exchange, stub_cas)]
+#[kani::unwind(9)]
+fn ob_rv_lockinv_cancel_receiver_nothing() { step_cancel_interleaved(true, 4); }
+
+// @obligation id=rv.lockinv.cancel_sender.try_send props=C01,C06 kind=step tier=quick bound="1 parked sender; one complete try_send of another handle runs between cancel_sender's state CAS and its lock acquisition; counts any 1..=2"
+#[kani::proof]
+#[kani::stub(std::thread::current::current, crate::verif_k_stubs::stub_thread_current)]
+#[kani::stub(parking_lot::RawMutex::lock_slow, crate::verif_k_stubs::stub_lock_slow)]
+#[kani::stub(parking_lot::RawMutex::unlock_slow, crate::verif_k_stubs::stub_unlock_slow)]
+#[kani::stub(std::sync::atomic::atomic_compare_exchange, stub_cas)]
+#[kani::unwind(9)]
+fn ob_rv_lockinv_cancel_sender_try_send() { step_cancel_interleaved(false, 0); }
+
+// @obligation id=rv.lockinv.cancel_sender.try_recv props=C01,C06 kind=step tier=quick bound="1 parked sender; one complete try_recv of another handle runs between cancel_sender's state CAS and its lock acquisition; counts any 1..=2"
+#[kani::proof]
+#[kani::stub(std::thread::current::current, crate::verif_k_stubs::stub_thread_current)]
+#[kani::stub(parking_lot::RawMutex::lock_slow, crate::verif_k_stubs::stub_lock_slow)]
+#[kani::stub(parking_lot::RawMutex::unlock_slow, crate::verif_k_stubs::stub_unlock_slow)]
+#[kani::stub(std::sync::atomic::atomic_compare_exchange, stub_cas)]
+#[kani::unwind(9)]
+fn ob_rv_lockinv_cancel_sender_try_recv() { step_cancel_interleaved(false, 1); }
+
+// @obligation id=rv.lockinv.cancel_sender.drop_sender props=C01,C06 kind=step tier=quick bound="1 parked sender; one complete drop_sender of another handle runs between cancel_sender's state CAS and its lock acquisition; counts any 1..=2"
+#[kani::proof]
+#[kani::stub(std::thread::current::current, crate::verif_k_stubs::stub_thread_current)]
+#[kani::stub(parking_lot::RawMutex::lock_slow, crate::verif_k_stubs::stub_lock_slow)]
+#[kani::stub(parking_lot::RawMutex::unlock_slow, crate::verif_k_stubs::stub_unlock_slow)]
+#[kani::stub(std::sync::atomic::atomic_compare_exchange, stub_cas)]
+#[kani::unwind(9)]
+fn ob_rv_lockinv_cancel_sender_drop_sender() { step_cancel_interleaved(false, 2); }
+
+// @obligation id=rv.lockinv.cancel_sender.drop_receiver props=C01,C06 kind=step tier=thorough bound="1 parked sender; one complete drop_receiver of another handle runs between cancel_sender's state CAS and its lock acquisition; counts any 1..=2"
+#[kani::proof]
+#[kani::stub(std::thread::current::current, crate::verif_k_stubs::stub_thread_current)]
+#[kani::stub(parking_lot::RawMutex::lock_slow, crate::verif_k_stubs::stub_lock_slow)]
+#[kani::stub(parking_lot::RawMutex::unlock_slow, crate::verif_k_stubs::stub_unlock_slow)]
+#[kani::stub(std::sync::atomic::atomic_compare_exchange, stub_cas)]
+#[kani::unwind(9)]
+fn ob_rv_lockinv_cancel_sender_drop_receiver() { step_cancel_interleaved(false, 3); }
+
+// @obligation id=rv.lockinv.cancel_sender.nothing props=C01,C06 kind=step tier=quick bound="1 parked sender; one complete nothing of another handle runs between cancel_sender's state CAS and its lock acquisition; counts any 1..=2"
+#[kani::proof]
+#[kani::stub(std::thread::current::current, crate::verif_k_stubs::stub_thread_current)]
+#[kani::stub(parking_lot::RawMutex::lock_slow, crate::verif_k_stubs::stub_lock_slow)]
+#[kani::stub(parking_lot::RawMutex::unlock_slow, crate::verif_k_stubs::stub_unlock_slow)]
+#[kani::stub(std::sync::atomic::atomic_compare_exchange, stub_cas)]
+#[kani::unwind(9)]
+fn ob_rv_lockinv_cancel_sender_nothing() { step_cancel_interleaved(false, 4); }
